@@ -25,9 +25,36 @@ VOCAB_HEX = {n.encode().hex() for k in ("control", "action", "test") for n in _V
 _NODE = re.compile(r"\(([0-9a-f]+) A\[")
 
 
+FROZEN_TAGS = {c: set(ts) for c, ts in _VOCAB.get("tags", {}).items()}
+_TAGQ = re.compile(rb":[A-Za-z_]")
+
+
+def foreign_tags(text):
+    """(command, tag) pairs of the script, by its own token structure, that the frozen vocabulary does not know"""
+    import oracle_generic
+    try:
+        toks = oracle_generic.tokenize(text)
+    except oracle_generic.GenericError:
+        return []
+    out, cur = [], None
+    for kind, val in toks:
+        if kind == "id":
+            cur = val.decode("latin-1").lower()
+        elif kind == "tag" and cur is not None:
+            t = val.decode("latin-1").lower()
+            if t not in FROZEN_TAGS.get(cur, ()):
+                out.append((cur, t))
+    return out
+
+
 def judge(text, impl, wf):
     acc = impl.startswith("accept")
     rej = impl.startswith("reject")
+    if acc and b":" in text:
+        # the frozen tag vocabulary: a tag belongs to the command whose identifier precedes it (arguments come before nested tests)
+        bad = foreign_tags(text)
+        if bad:
+            return "a tag its command does not have is accepted: %s" % ", ".join("%s %s" % x for x in bad[:3])
     if acc:
         # the frozen vocabulary (spec/vocabulary.json, not derived from the code): a node whose name is not a word of the
         # supported language is an unknown command that was accepted
